@@ -466,8 +466,13 @@ pub async fn cases(w: &mut World, t: &Twin) -> Vec<Case> {
         }
         {
             let s = role("admin");
-            let dest = w.users[t.user].kp.pubkey();
-            v.push(Case { name: "update_fees_destination".into(), ixs: vec![ix::update_fees_destination(g0k, s.pubkey(), b0, dest)], target: 0, signer_key: Some(s.pubkey()), signers: vec![s], entitled: vec!["admin"], subs: bank_admin_subs(0, 1) });
+            let dest = w.users[t.user].tas[w.banks[t.b0].mint];
+            // fix the destination once so that the permissionless withdrawal has a positive control
+            let setd = ix::update_fees_destination(g0k, s.pubkey(), b0, dest);
+            let _ = w.raw_send(&[setd], &[&s]).await;
+            v.push(Case { name: "update_fees_destination".into(), ixs: vec![ix::update_fees_destination(g0k, s.pubkey(), b0, dest)], target: 0, signer_key: Some(s.pubkey()), signers: vec![clone_kp(&s)], entitled: vec!["admin"], subs: bank_admin_subs(0, 1) });
+            let other_ta = w.users[3].tas[w.banks[t.b0].mint];
+            v.push(Case { name: "withdraw_fees_permissionless".into(), ixs: vec![ix::withdraw_fees_permissionless(g0k, b0, dest, w.token_program_of_bank(t.b0), 1, w.mint_prefix(t.b0))], target: 0, signer_key: None, signers: vec![], entitled: vec![], subs: vec![(0, "group->foreign group".into(), g1k), (1, "bank->foreign group's bank".into(), b1), (2, "fee vault->insurance vault".into(), kb0.iv), (4, "fees destination->another token account of the mint".into(), other_ta)] });
         }
         let s = role("risk");
         v.push(Case { name: "force_tokenless_repay_complete".into(), ixs: vec![ix::force_tokenless_complete(g0k, s.pubkey(), a0)], target: 0, signer_key: Some(s.pubkey()), signers: vec![s], entitled: vec!["risk"], subs: bank_admin_subs(0, 2) });
